@@ -1547,14 +1547,17 @@ func matchExactRegex(v string) ([]string, bool) {
 	}
 
 	start := re.Sub[0]
-	if !(start.Op == syntax.OpBeginLine || start.Op == syntax.OpBeginText) {
-		// Regex does not begin with ^
+	if start.Op != syntax.OpBeginText {
+		// Regex does not begin with a text anchor: ^ without (?m), or \A.
+		// OpBeginLine - ^ under (?m) - also matches after every newline, so
+		// such a regex is not equivalent to a list of literals.
 		return nil, false
 	}
 
 	end := re.Sub[len(re.Sub)-1]
-	if !(end.Op == syntax.OpEndLine || end.Op == syntax.OpEndText) {
-		// Regex does not end with $
+	if end.Op != syntax.OpEndText {
+		// Regex does not end with a text anchor: $ without (?m), or \z.
+		// OpEndLine - $ under (?m) - also matches before every newline.
 		return nil, false
 	}
 
